@@ -309,6 +309,45 @@ inline std::vector<XAtom> elements(const ref::Group& g, const Cfg& c, Level lv, 
       out.push_back(x);
     }
   }
+  // exact-coefficient atoms: rotation coefficients made of exact 0 / +-1 / signed zero (identity, quarter and half turns, the
+  // w == 0 boundary of the double cover) — the inputs on which a shortcut keyed on `coefficient == 0` would fire; never produced
+  // by cos/sin of a floating-point angle.  Linear parts: zero and O(1).
+  {
+    static const Real r2[][2] = {{1, 0}, {-1, 0}, {-1, -0.0L}, {0, 1}, {0, -1}, {1, -0.0L}};
+    static const Real r2th[] = {0, 3.14159265358979323846264338327950288L, 3.14159265358979323846264338327950288L, 1.57079632679489661923L, 1.57079632679489661923L, 0};
+    static const Real r3[][4] = {{0, 0, 0, 1}, {1, 0, 0, 0}, {0, -1, 0, 0}, {0, 0, 1, 0}, {0, 0.6L, 0, 0.8L}, {0.6L, 0, 0, 0.8L}};
+    static const Real r3th[] = {0, 3.14159265358979323846264338327950288L, 3.14159265358979323846264338327950288L, 3.14159265358979323846264338327950288L, 1.2870022175865687L, 1.2870022175865687L};
+    const int n2 = 6, n3 = 6, nk = has3 ? n3 : n2;
+    bool anyrot = false;
+    for (size_t b = 0; b < g.blocks.size(); ++b) if (g.blocks[b].rotdim) anyrot = true;
+    if (anyrot)
+      for (int k = 0; k < nk; ++k)
+        for (int l = 0; l < 2; ++l) {
+          Vec t = Vec::Zero(g.DoF);
+          for (size_t b = 0; b < g.blocks.size(); ++b) {
+            const ref::Block& B = g.blocks[b];
+            for (int i = 0; i < B.DoF; ++i) {
+              bool rot = B.rotdim == 3 ? (i >= B.rot_t0 && i < B.rot_t0 + 3) : (B.rotdim == 2 && i == B.rot_t0);
+              if (!rot) t(g.offDoF[b] + i) = (Real)l * (Real)(0.5L + 0.25L * ((i * 5 + (int)b) % 7)) * ((i % 2) ? -1 : 1);
+            }
+          }
+          // hemisphere twins adjacent (h=+1 then h=-1: every quaternion coefficient negated, +0 becomes -0), as in the main table
+          for (int h = 1; h >= -1; h -= 2) {
+            if (h < 0 && (!has3 || !both_hemi)) continue;
+            XAtom x; x.c = g.fromM(g.exp(t), +1); x.theta = 0; x.hemi = h;
+            std::string rk;
+            for (size_t b = 0; b < g.blocks.size(); ++b) {
+              const ref::Block& B = g.blocks[b];
+              if (B.rotdim == 2) { int kk = (k + (int)b) % n2; x.c(g.offRep[b] + B.rot_c0) = r2[kk][0]; x.c(g.offRep[b] + B.rot_c0 + 1) = r2[kk][1]; x.theta = std::max(x.theta, r2th[kk]); rk += "c" + std::to_string(kk); }
+              if (B.rotdim == 3) { int kk = (k + (int)b) % n3; for (int q = 0; q < 4; ++q) x.c(g.offRep[b] + B.rot_c0 + q) = (h > 0 ? r3[kk][q] : -r3[kk][q]); x.theta = std::max(x.theta, r3th[kk]); rk += "q" + std::to_string(kk); }
+            }
+            if (x.theta > theta_max) continue;
+            x.lin = g.lin_scale_M(g.toM(x.c));
+            x.key = "exact_coeffs=" + rk + ",lin=" + std::to_string(l) + (has3 ? (h > 0 ? ",w>=0" : ",w<0") : "");
+            out.push_back(x);
+          }
+        }
+  }
   return out;
 }
 
